@@ -109,7 +109,7 @@ def run(ctx):
   ctx.trusted = ["Coq 8.16.1 kernel + vm_compute", "translator tools/translate_query.py + idiom table coq/Base/NP.v",
                  "oracle: sklearn.metrics.roc_auc_score (validated against the Mann-Whitney count each run)",
                  "that no estimator class overrides the mixin methods is checked dynamically by the harness"]
-  ok = ctx.build_property(gen_needed=['Src_query'], case_libs=('Model/CaseDefs.vo', 'Model/CaseDefsQuery.vo'))
+  ok = ctx.build_property(gen_needed=['Src_query'], case_libs=('Model/CaseDefs.vo', 'Model/CaseDefsClf.vo'))
   import metric_learn
   from metric_learn import base_metric as bm
   # the concrete classes use the mixin methods (no override)
@@ -228,7 +228,7 @@ def run(ctx):
     return False
 
   if ok:
-    res = ctx.run_cases('c04', mc.HEADER, terms, per_file=60)
+    res = ctx.run_cases('c04', mc.HEADER.replace('CaseDefsQuery', 'CaseDefsClf'), terms, per_file=60)
     for r, rec in zip(res, recs):
       ctx.count('correspondence_exact', 1)
       if r is False and not falsify(rec):
